@@ -24,7 +24,7 @@ type poolEntry struct {
 // texts (differing only in whitespace inside a string, in a comment marker, or by a suffix).
 func runC08Cache(cfg *vc.Config, rep *vc.Report) {
 	sizes := []int{1, 2, 3, 8, 1024}
-	cfg.Cases(120, 2000, func(i int, r *vc.Rand) {
+	cfg.Cases(120, 6000, func(i int, r *vc.Rand) {
 		n := sizes[i%len(sizes)]
 		var pool []poolEntry
 		add := func(text string, w *ng.World) {
